@@ -422,5 +422,7 @@ def is_caller_code(fn):
 def load(config="default", root=None):
     p = extract(config, root)
     f = Facts(p)
+    f.root = os.path.abspath(root or REPO)
+    f.config = config
     n = len(f.fn_bodies)
     return f
